@@ -185,6 +185,9 @@ func buildScenarioPP(e *EnvSpec, ps HSpec) *scenario {
 		sc.gp = ch.add(e.GP, true)
 	}
 	sc.p = reg(ps, true)
+	if os.Getenv("C09_DEBUG") != "" { // development aid
+		fmt.Fprintln(os.Stderr, "parent hash:", sc.p.Hash().Hex(), "uncle hash:", sc.p.Header().UncleHash().Hex())
+	}
 	if e.DefGenesisPar {
 		ch.hc.Config().DefaultGenesisHash = sc.p.Hash()
 	}
@@ -200,6 +203,9 @@ func verify(sc *scenario, child *types.WorkObject, now uint64) (accepted bool, p
 		}
 	}()
 	err := sc.ch.hc.VerifC09VerifyHeader(child, sc.p, false, int64(now))
+	if err != nil && os.Getenv("C09_DEBUG") != "" { // development aid
+		fmt.Fprintln(os.Stderr, "verifyHeader:", err)
+	}
 	return err == nil, false
 }
 
@@ -258,13 +264,33 @@ func (c *ctxT) runVerify(cs Case) string {
 		}
 	}
 	term := fmt.Sprintf("CVerify %s %s %s %s", envCoq(e, ps), coqHeader(sc.ch, sc.p, ps), coqHeader(sc.ch, child, csp), hlib.CoqBool(ok))
+	// the model of both fork regimes (valid_child_x: share-difficulty fields, fork-aware base fee): every pair with a header
+	// after the KawPow fork or with share fields present, and an eighth of the others (there both models must agree)
+	termX := fmt.Sprintf("CVerifyX %s %s %s %s %s %s", envCoq(e, ps), coqHeader(sc.ch, sc.p, ps), coqHeader(sc.ch, child, csp), psCoq(ps), shCoq(csp), hlib.CoqBool(ok))
+	fork := forkCase(cs)
+	if fork {
+		c.rep.Count("verify:fork:" + forkClass(csp.ptNumBig().Uint64()))
+		c.rep.Nontrivial(fmt.Sprintf("verify-fork:%s:%s:%v", forkClass(csp.ptNumBig().Uint64()), cs.Dev, ok))
+		if postFork(ps) {
+			_, a, b, cc, d := sc.ch.hc.CountWorkSharesByAlgo(sc.p)
+			if wa, wb, wc, wd := auxCounts(ps); a != wa || b != wb || cc != wc || d != wd {
+				c.rep.Fail("CountWorkSharesByAlgo:count", "CountWorkSharesByAlgo(parent) does not find the shares the body holds", cs)
+			}
+		}
+	}
 	c.verifyHistory(cs, sc, child, ok)
 	store := c.storePaths(cs)
 	if len(cs.Dev) > 1 && cs.Dev[:2] == "x:" {
 		return "" // deviation of a rule outside the model: monitor only
 	}
+	if fork {
+		return termX // CVerify / CStore are stated over the model before the fork
+	}
 	if store != "" && (cs.Dev == "" || cs.ID%4 == 0) { // the model comparison of the store history: a quarter of the cases
 		c.extra = append(c.extra, store)
+	}
+	if cs.ID%8 == 3 {
+		c.extra = append(c.extra, termX)
 	}
 	return term
 }
@@ -366,6 +392,14 @@ func fabricateChild(c *ctxT, sc *scenario, e *EnvSpec, ps HSpec, zoneOrder bool)
 			ch.PTHash, ch.PTNum, ch.PTNumX = sc.p.Hash().Hex(), ps.NumPrime, ps.NumPrimeX
 		} else {
 			ch.PTHash, ch.PTNum, ch.PTNumX = sc.p.PrimeTerminusHash().Hex(), ps.PTNum, ps.PTNumX
+		}
+		if ch.ptNumBig().Uint64() >= params.KawPowForkBlock {
+			// the share-difficulty fields, from the real helper functions (they read the child's prime terminus number only)
+			tmp := build(ch)
+			d1, c1, u1 := hc.CalculatePowDiffAndCount(sc.p, tmp.WorkObjectHeader(), types.SHA_BTC)
+			d2, c2, u2 := hc.CalculatePowDiffAndCount(sc.p, tmp.WorkObjectHeader(), types.Scrypt)
+			ch.Sh = &ShSpec{d1.String(), c1.String(), u1.String(), d2.String(), c2.String(), u2.String(),
+				hc.CalculateShareTarget(sc.p, tmp).String(), hc.CalculateShareTarget(sc.p, tmp).String(), hc.CalculateKawpowDifficulty(sc.p, tmp).String()}
 		}
 		ch.Parent = sc.p.Hash().Hex()
 		ch.Nonce = c.rng.Next()
@@ -563,6 +597,18 @@ func genPairAt(c *ctxT, shape int, loc []int, pick bool) (*pairGen, bool) {
 		if c.rng.Chance(10) {
 			e.PPT = nil
 		}
+	case 8: // after the KawPow fork (see fork.go forkParent)
+		v := c.rng.Intn(4)
+		if c.sub8 > 0 {
+			v = c.sub8 - 1
+		}
+		// the main network's floor: with a difficulty below params.KQuaiDifficultyDivisor the fork-aware reward formula
+		// goes negative and so does CalcBaseFee (see design/C09.md, observations) - no header on the wire can match it
+		e.DL, e.MinD = "5", "750000000000"
+		pd = new(big.Int).Add(bi(e.MinD), randBig(c, 1+c.rng.Intn(48)))
+		ps.Diff = pd.String()
+		target = new(big.Int).Div(two256, pd)
+		forkParent(c, &e, &ps, target, v)
 	case 6: // numbers wider than 64 bits (the wire format has no width limit): number, prime number, terminus number
 		ps.Pow = powFor(c, target, c.rng.Chance(80)).String()
 		wide := func() string {
@@ -881,12 +927,35 @@ func verifyCasesAt(c *ctxT, shape int, k int, loc []int, pick bool) []Case {
 	out := []Case{{ID: c.next(), Kind: "verify", Env: cloneEnv(&pg.env), H: []HSpec{pg.parent, pg.child}},
 		{ID: c.next(), Kind: "expansion", Env: cloneEnv(&pg.env), H: []HSpec{pg.parent}}}
 	devs := append(deviations(), wideDeviations()...)
+	nOld := len(devs)
+	devs = append(devs, shareDeviations()...)
 	if w, err := pg.sc.ch.hc.WorkShareLogEntropy(pg.sc.p); err == nil {
 		pg.parent.wsHint = w.String()
 	}
-	idx := make([]int, len(devs))
+	idx := make([]int, nOld)
 	for i := range idx {
 		idx[i] = i
+	}
+	// the share-field deviations are chosen with a PRNG of their own (derived from the parent: replayable, and the case's
+	// stream is the one it was before they existed): before the fork one or two "present although it must be absent" (all
+	// nine in a complete sweep), after the fork a third of them (all when the generator asks for it)
+	sr := hlib.NewRng(pg.parent.Nonce ^ 0x5a17e5).Fork()
+	var shareIdx []int
+	for i := nOld; i < len(devs); i++ {
+		switch {
+		case strings.HasSuffix(devs[i].name, "-present-before-fork"):
+			if k < 0 || sr.Chance(12) {
+				shareIdx = append(shareIdx, i)
+			}
+		case strings.HasSuffix(devs[i].name, "+2^64"):
+			if sr.Chance(10) {
+				shareIdx = append(shareIdx, i)
+			}
+		default:
+			if c.allShareDevs || sr.Chance(35) {
+				shareIdx = append(shareIdx, i)
+			}
+		}
 	}
 	if k >= 0 { // random subset
 		for i := len(idx) - 1; i > 0; i-- {
@@ -904,6 +973,7 @@ func verifyCasesAt(c *ctxT, shape int, k int, loc []int, pick bool) []Case {
 			}
 		}
 	}
+	idx = append(idx, shareIdx...)
 	for _, i := range idx {
 		ch := pg.child
 		e := cloneEnv(&pg.env)
